@@ -156,7 +156,7 @@ Proof.
 Qed.
 Example ex_iter_applies : length (iter (dna_spec ex_w ex_t) 9) = 9%nat /\ NoDup (iter (dna_spec ex_w ex_t) 9).
 Proof.
-  destruct (iter_count std_cdec ex_w ex_t ex_hwf ex_wf ex_finite (weval_shallow WAll) std_concrete std_cdec_inj
+  destruct (iter_count std_cdec ex_w ex_t ex_hwf ex_wf ex_finite std_cdec_inj
               ex_distinguishable 9 (Nat.le_refl 9)) as (E & ND & _).
   split; [reflexivity | exact ND].
 Qed.
